@@ -2,9 +2,10 @@
 C10 — Ring / SyncRing are bounded FIFOs sequentially.  ONLY property theorems and
 non-vacuity examples live here; helper lemmas are in `Golib/Proof/C10*.lean`.
 
-Abstraction: `Ring.content r` (oldest first); spec = bounded FIFO on `List Int`.
+Abstraction: `Ring.content r` (oldest first); spec = bounded FIFO `BQ` on `List Int`
+(`Golib/Model/C10Spec.lean`).
 -/
-import Golib.Proof.C10Ring
+import Golib.Proof.C10Refine
 
 namespace Golib.C10
 
@@ -46,5 +47,57 @@ theorem c10_ring_len (r : Ring) (hi : r.Inv) :
 /-- Non-vacuity: a wrapped ring (head > tail) satisfies the invariant. -/
 example : (⟨[4, 5, 0, 3], 3, 1, 4⟩ : Ring).Inv ∧ (⟨[4, 5, 0, 3], 3, 1, 4⟩ : Ring).content = [3, 4, 5] :=
   ⟨⟨by decide, by decide, Or.inr (by decide)⟩, by decide⟩
+
+/-- Recap succeeds exactly for positive capacities different from the current one and not
+    below `Len`; it never panics, and content and order are preserved for every head
+    offset, wrapped or not (the invariant admits every rotation). -/
+theorem c10_recap_spec (r : Ring) (cap : Int) (hi : r.Inv) :
+    ∃ r' ok, r.recap cap = some (r', ok) ∧ r'.Inv ∧ r'.content = r.content ∧
+      (ok = true ↔ (0 < cap ∧ cap ≠ r.cap ∧ (r.content.length : Int) ≤ cap)) ∧
+      r'.cap = (if ok then cap else r.cap) :=
+  recap_spec r cap hi
+
+/-- PushWithExpand always appends, never panics, doubles the capacity exactly when full. -/
+theorem c10_expand (r : Ring) (v : Int) (hi : r.Inv) :
+    ∃ r', r.pushWithExpand v = some r' ∧ r'.Inv ∧ r'.content = r.content ++ [v] ∧
+      r'.cap = (if (r.content.length : Int) = r.cap then r.cap * 2 else r.cap) :=
+  pushWithExpand_spec r v hi
+
+/-- Non-vacuity for Recap: a wrapped ring shrunk to exactly its length. -/
+example : (⟨[4, 5, 0, 3], 3, 1, 4⟩ : Ring).recap 3 = some (⟨[3, 4, 5], 0, 2, 3⟩, true) := by decide
+
+/-- Refinement over arbitrary operation lists: from any state satisfying the
+    representation invariant (every capacity, every rotation, wrapped or not, every
+    fill level), a sequence of `push/pushx/recap/pop/peek/len/cap/isempty/isfull`
+    of ANY length never panics and prints exactly what the bounded FIFO prints;
+    the final state again abstracts to the FIFO's final state. -/
+theorem c10_ring_refines (r : Ring) (hi : r.Inv) (ops : List Op) :
+    ∃ r', r.run ops = some (r', (r.abs.run ops).2) ∧ r'.Inv ∧ r'.abs = (r.abs.run ops).1 := by
+  induction ops generalizing r with
+  | nil => exact ⟨r, rfl, hi, rfl⟩
+  | cons op ops ih =>
+    obtain ⟨r1, h1, hi1, ha1⟩ := step_refines r hi op
+    obtain ⟨r2, h2, hi2, ha2⟩ := ih r1 hi1
+    refine ⟨r2, ?_, hi2, ?_⟩
+    · simp only [Ring.run, h1, h2, BQ.run, ha1]
+    · simp only [BQ.run, ha2, ha1]
+
+/-- The same from `New(cap)`: every history of a fresh ring is a bounded-FIFO history. -/
+theorem c10_ring_refines_new (cap : Int) (h : 0 < cap) (ops : List Op) :
+    ∃ r r', Ring.init? cap = some r ∧
+      r.run ops = some (r', ((⟨[], cap⟩ : BQ).run ops).2) ∧ r'.Inv := by
+  obtain ⟨r, hr, hi, hc, hcap⟩ := c10_ring_init cap h
+  obtain ⟨r', h1, hi', _⟩ := c10_ring_refines r hi ops
+  have : r.abs = ⟨[], cap⟩ := by simp only [Ring.abs, hc, hcap]
+  rw [this] at h1
+  exact ⟨r, r', hr, h1, hi'⟩
+
+/-- Non-vacuity: a history with wrap, expand and recap, evaluated on model and spec. -/
+example :
+    ((⟨[4, 5, 0, 3], 3, 1, 4⟩ : Ring).run [.pushx 6, .pushx 7, .pop, .recap 4, .isFull]).map (·.2)
+      = some ["ok", "ok", "3 true", "true", "true"] ∧
+    ((⟨[3, 4, 5], 4⟩ : BQ).run [.pushx 6, .pushx 7, .pop, .recap 4, .isFull]).2
+      = ["ok", "ok", "3 true", "true", "true"] := by
+  constructor <;> decide
 
 end Golib.C10
